@@ -202,3 +202,32 @@ package closest
 //@   before send#3: assert [c06.fanout] forall(k, 0, nQ, len(sent(QChanArray[k])) == len(recv(cIn)) && forall(t, 0, len(recv(cIn)), sent(QChanArray[k])[t] == recv(cIn)[t]))
 //@   ensures [done.once] len(sent(cSplitDone)) == 1
 //@   ensures [c18.width] implies(len(recv(cIn)) >= 1 && len(recv(cIn)[0].Seq) != len(queries[0].Seq), len(sent(cErr)) == 1)
+
+//@ # closest -n / -d: the same fan-out stage in front of findClosestN
+//@ func splitInputN spawns
+//@   modifies cErr, cSplitDone
+//@   requires len(queries) >= 1
+//@   loop 1:
+//@     invariant 0 <= i && i <= nQ && nQ == len(queries) && len(QChanArray) == nQ && freshslice(QChanArray)
+//@     invariant [chan.made] forall(k, 0, i, madechan(QChanArray[k]))
+//@     invariant [chan.distinct] forall(a, 0, i, forall(b, 0, i, implies(a != b, QChanArray[a] != QChanArray[b])))
+//@   loop 2:
+//@     invariant nQ == len(queries) && len(QChanArray) == nQ
+//@     invariant forall(k, 0, nQ, len(sent(QChanArray[k])) == 0)
+//@   before call:findClosestN#1: assert [worker.wiring] arg(0) == queries[i] && arg(1) == catchmentSize && arg(2) == maxdist && arg(3) == measure && arg(4) == QChanArray[i] && arg(5) == cOut
+//@   loop 3:
+//@     invariant nQ == len(queries) && len(QChanArray) == nQ && len(sent(cSplitDone)) == 0 && targetCounter == range_i
+//@     invariant [fanout.all] forall(k, 0, nQ, len(sent(QChanArray[k])) == range_i)
+//@     invariant [fanout.order] forall(k, 0, nQ, forall(t, 0, range_i, sent(QChanArray[k])[t] == recv(cIn)[t]))
+//@     invariant [c18.width] len(sent(cErr)) == ite(range_i >= 1 && len(recv(cIn)[0].Seq) != len(queries[0].Seq), 1, 0)
+//@   loop 4:
+//@     invariant 0 <= i && i <= nQ && nQ == len(queries) && len(QChanArray) == nQ && len(sent(cSplitDone)) == 0
+//@     invariant forall(k, 0, i, len(sent(QChanArray[k])) == range_i3 + 1 && sent(QChanArray[k])[range_i3] == EFR)
+//@     invariant forall(k, i, nQ, len(sent(QChanArray[k])) == range_i3)
+//@     invariant forall(k, 0, nQ, forall(t, 0, range_i3, sent(QChanArray[k])[t] == recv(cIn)[t]))
+//@     invariant len(sent(cErr)) == ite(len(recv(cIn)[0].Seq) != len(queries[0].Seq), 1, 0)
+//@   loop 5:
+//@     invariant len(sent(cSplitDone)) == 0
+//@   before send#3: assert [c06.fanout] forall(k, 0, nQ, len(sent(QChanArray[k])) == len(recv(cIn)) && forall(t, 0, len(recv(cIn)), sent(QChanArray[k])[t] == recv(cIn)[t]))
+//@   ensures [done.once] len(sent(cSplitDone)) == 1
+//@   ensures [c18.width] implies(len(recv(cIn)) >= 1 && len(recv(cIn)[0].Seq) != len(queries[0].Seq), len(sent(cErr)) == 1)
